@@ -15,12 +15,12 @@ VERUS = {
     'int_add_ops_panic': {'file': 'int_add_ops_panic.rs', 'w32': True},
     # mul_ops::repr::{mul_dword, mul_dword_spilled, mul_large_dword, mul_large, square_dword_spilled, square_large},
     # TypedReprRef::sqr and the 4 `impl Mul` dispatches: ret.v() == a * b.  mul_large / square_large are glue over the
-    # ASSUMED contracts of mul::multiply / sqr::sqr (Karatsuba / Toom-3 out of reach), mul_large_dword's double-word
-    # path over the ASSUMED contract of mul::mul_dword_in_place (chunks_exact_mut); primitive::shrink_dword is proved.
+    # the contracts of mul::multiply / sqr::sqr (PROVED in units int_mul_dispatch / int_sqr since round 1 late), mul_large_dword's double-word
+    # path over the contract of mul::mul_dword_in_place (PROVED in unit int_mul_dword); primitive::shrink_dword is proved.
     'int_mul_ops': {'file': 'int_mul_ops.rs', 'w32': True},
     # pow::repr::{pow_word_base, pow_dword_base, pow_large_base} (left-to-right square-and-multiply loops: invariant
     # val(res) == base^(2*(exp >> (p+1))), length/capacity bounds; all shortcuts of pow_word_base) and TypedReprRef::pow
-    # (dispatch): ret.v() == base^exp (spec ipow).  Assumed: sqr::sqr, mul::mul_dword_in_place, math::max_exp_in_word
+    # (dispatch): ret.v() == base^exp (spec ipow).  Via SIG (proved elsewhere): sqr::sqr, mul::mul_dword_in_place; assumed: math::max_exp_in_word
     # (SIG-only copies), bit_len, Word::pow, set_bit on zero, usize::div_rem (lib/pow_stubs.rs).
     'int_pow': {'file': 'int_pow.rs', 'w32': True},
     # macro arms impl_ibig_add / impl_ibig_sub / impl_ibig_mul (rule E3, 4 owned|borrowed combinations each) over the
@@ -35,7 +35,7 @@ PROP_UNITS = {
     'C01': {'verus': ['int_add_ops', 'int_add_ops_signed', 'int_add_ops_panic', 'int_mul_ops', 'int_pow', 'int_ops_sign', 'int_pow_api'],
             'undecided': ['UBig/IBig sqr, cubic wrappers and the primitive-operand operator forms are not under contract',
                           'math::max_exp_in_word, bit_len, Word::pow, set_bit, trailing_zeros, >>, << : contracts assumed by int_pow / int_pow_api',
-                          'mul::multiply, sqr::sqr, mul::mul_dword_in_place, cmp::cmp_in_place: contracts assumed by '
+                          'mul::multiply, sqr::sqr, mul::mul_dword_in_place: proved in units int_mul_dispatch/int_sqr/int_mul_dword (SIG); cmp::cmp_in_place: contract assumed by '
                           'int_mul_ops (bodies not verified); scratch-memory sizing (memory_requirement_*) not verified',
                           'Buffer/Repr method contracts of lib/repr_stubs.rs are assumed (raw-pointer code)',
                           'resource preconditions: operand lengths below Buffer::MAX_CAPACITY (allocation limit)']},
